@@ -214,6 +214,10 @@ def finish(prop: str, mod, tier: str, seed: int, res: Result, wall: float, extra
     with open(os.path.join(env.EVIDENCE_DIR, f"{prop}.json" + os.environ.get("VERIF_EVIDENCE_SUFFIX", "")), "w") as f:
         json.dump(ev, f, indent=1)
 
+    if not os.environ.get("VERIF_EVIDENCE_SUFFIX"):
+        import glob
+        for old_replay in glob.glob(os.path.join(env.REPLAY_DIR, f"{prop}-*.json")):
+            os.remove(old_replay)
     for k, v in sorted(listed.items()):
         print(f"KNOWN-FINDING: property={prop} {k} ({v['count']} occurrences this run) {known[k].get('description', '')[:160]}")
     code = 0
